@@ -4,6 +4,7 @@ import (
 	"encoding/json"
 	"io"
 	"net/http"
+	"net/url"
 	"strings"
 
 	"github.com/git-lfs/git-lfs/v3/creds"
@@ -34,7 +35,7 @@ func (f verifEndpoints) AccessFor(rawurl string) creds.Access {
 	return creds.NewAccess(creds.NoneAccess, rawurl)
 }
 func (f verifEndpoints) SetAccess(access creds.Access) {}
-func (f verifEndpoints) GitProtocol() string          { return "https" }
+func (f verifEndpoints) GitProtocol() string           { return "https" }
 
 type verifSeen struct {
 	method, url, accept, ctype, body string
@@ -177,5 +178,81 @@ func VerifC18_VerifyLocksRequest() {
 		} else {
 			verifAssert(verifJSONString(seen.body, "cursor") == cursor, "the follow-up request carries the server's cursor")
 		}
+	}
+}
+
+type verifSearchList struct {
+	Locks      []Lock `json:"locks"`
+	NextCursor string `json:"next_cursor,omitempty"`
+}
+
+// a query value: text with URL meta characters, or any unreserved text
+func verifQueryValue(tag string) string {
+	switch verifChoose(tag+".kind", 5) {
+	case 0:
+		return "docs/R&D+plan v2=final.psd"
+	case 1:
+		return "c++/a b#c?d%e"
+	case 2:
+		return "q83vEjRWeJ+/8A=="
+	case 3:
+		return "plain.txt"
+	}
+	v := verifNondetString(tag)
+	verifAssume(len(v) >= 1 && len(v) <= 24)
+	verifAssumeAlphabet(v, "azAZ09--__..")
+	return v
+}
+
+// VerifC18_ListLocksRequest: the lock list is a GET to <endpoint>/locks whose
+// query names exactly the caller's filter, limit and ref and, on the next
+// page, the cursor the server handed out - each value form-encoded so that
+// the server reads back what was meant.
+func VerifC18_ListLocksRequest() {
+	verifSeenReqs = nil
+	c := verifClient()
+	c.RemoteRef = &git.Ref{Name: verifQueryValue("ref"), Type: []git.RefType{git.RefTypeLocalBranch, git.RefTypeOther}[verifChoose("ref.type", 2)]}
+	filterKey := []string{"path", "id"}[verifChoose("filter.key", 2)]
+	filterVal := verifQueryValue("filter.value")
+	limit := verifChoose("limit", 3) * 7 // 0 (none), 7, 14
+	cursor := verifQueryValue("cursor")
+	page1, _ := json.Marshal(&verifSearchList{Locks: []Lock{}, NextCursor: cursor})
+	page2, _ := json.Marshal(&verifSearchList{Locks: []Lock{}})
+	lfsapi.VerifAPIAnswer = func(remote string, req *http.Request) (*http.Response, error) {
+		verifRecord(req)
+		if len(verifSeenReqs) == 1 {
+			return verifJSONResponse(200, string(page1)), nil
+		}
+		return verifJSONResponse(200, string(page2)), nil
+	}
+	_, err := c.searchRemoteLocks(map[string]string{filterKey: filterVal}, limit)
+	verifAssert(err == nil, "listing succeeds")
+	verifAssert(len(verifSeenReqs) == 2, "the second page is asked for")
+	verifCover("list-locks-request")
+	for k, seen := range verifSeenReqs {
+		verifAssert(seen.method == "GET" && seen.body == "", "GET without a body")
+		verifAssert(seen.accept == verifLFSMedia, "Accept is the LFS media type")
+		// expected query: keys in sorted order, values form-encoded
+		want := ""
+		add := func(key, val string) {
+			if want != "" {
+				want += "&"
+			}
+			want += key + "=" + url.QueryEscape(val)
+		}
+		if k == 1 {
+			add("cursor", cursor)
+		}
+		if filterKey == "id" {
+			add("id", filterVal)
+		}
+		if limit > 0 {
+			add("limit", []string{"0", "7", "14"}[limit/7])
+		}
+		if filterKey == "path" {
+			add("path", filterVal)
+		}
+		add("refspec", c.RemoteRef.Refspec())
+		verifAssert(seen.url == verifAPI+"/locks?"+want, "the query names exactly filter, limit, ref and the server's cursor, form-encoded")
 	}
 }
